@@ -2,6 +2,7 @@ import MirVerif.Lemmas.CArithFold
 import MirVerif.Lemmas.CArithSpec
 import MirVerif.Lemmas.CArithBf
 import MirVerif.Lemmas.BridgeC07
+import MirVerif.Model.CArithExpr
 /-! # C07 — C programs compiled by c2mir behave as under the reference compiler.
 Property theorems only (the proved fragment: conversions, opcode selection, compile-time folding,
 bit-field access, small block moves).  The parser, declaration checker, initialiser flattening and
@@ -293,5 +294,42 @@ theorem block_move_copies (dst src size : Nat) (m : Mem)
       (fun i j hi hj => by omega) a
 
 example : blockMove 10 20 3 (fun a => BitVec.ofNat 8 a) 11 = 21 := by decide
+
+/-- converting the 64-bit image of a value `v` of ANY integer type `t'` with `cast_value` to an
+arithmetic type `t` gives the image of `convVal t v`, C's conversion on mathematical values -/
+theorem castValue_val (t t' : IType) (ht : promote t = t) (x : W64) :
+    valOf t (castValue t x) = convVal t (valOf t' x) := by
+  have hx := x.isLt
+  have hI : x.toInt = if 2 * x.toNat < 2 ^ 64 then (x.toNat : Int) else (x.toNat : Int) - 2 ^ 64 :=
+    BitVec.toInt_eq_toNat_cond x
+  have hb : t.std ≠ .bool := fun e => by cases t <;> first | exact absurd ht (by decide) | exact absurd e (by decide)
+  rw [cast_value_meets_c t hb x]
+  have hv : valOf t' x = x.toInt ∨ valOf t' x = (x.toNat : Int) := by
+    unfold valOf; split
+    · exact Or.inl rfl
+    · exact Or.inr rfl
+  generalize valOf t' x = v at hv
+  cases t <;> first
+    | exact absurd ht (by decide)
+    | (simp only [valOf, cConv, convVal, IType.signed, IType.std, IType.width, if_true, if_false,
+         Bool.false_eq_true, reduceCtorEq, wrapI, wrapN, BitVec.toInt_ofInt, BitVec.toNat_ofNat]
+       try simp only [Int.bmod_def] at *
+       rcases hv with rfl | rfl <;> split at hI <;> omega)
+
+theorem usualArith_promoted (t1 t2 : IType) : promote (usualArith t1 t2) = usualArith t1 t2 := by
+  cases t1 <;> cases t2 <;> decide
+
+/-- **Folding of `c ? a : b` with a constant condition** (integer arms): the folded constant is the
+selected arm converted to the common type, exactly the value `cEval` (C11 6.5.15p5) assigns. -/
+theorem fold_cond_meets_c (t1 t2 : IType) (c a b : W64) :
+    valOf (usualArith t1 t2) (foldCond t1 t2 c a b)
+      = convVal (usualArith t1 t2) (if c ≠ 0 then valOf t1 a else valOf t2 b) := by
+  unfold foldCond
+  split
+  · exact castValue_val _ t1 (usualArith_promoted t1 t2) a
+  · exact castValue_val _ t2 (usualArith_promoted t1 t2) b
+
+example : foldCond .int .ulong 0 7 (-1) = -1 ∧ foldCond .uint .int 1 (-1) 5 = 0xFFFFFFFF ∧
+    valOf (usualArith .uint .int) (foldCond .uint .int 0 9 (-1)) = 4294967295 := by decide
 
 end MirVerif.CArith
